@@ -34,14 +34,14 @@ CHECKS.update({
     "C05": dict(
         engine="LLSym + PySym",
         technique="LLSym symbolic run of the real DP on trio shapes in trusted-genotype mode; z3 decides: child alleles come from the respective parent's genotype, the transmission value selects the parental haplotype under one fixed labelling, read-less columns with a homozygous parent are phased; sub-check ped_parts: LLSym run of Pedigree + PedigreePartitions alone, all transmission values and every order of addRelationship calls - each child's partitions follow the two bits of the k-th added relationship (the decoding phase.py and --recombination-list use); sub-checks ped_filter / ped_genetic (PySym/z3): find_phaseable_variants resp. run_whatshap itself under stubs (reader, read input, solver contract stub, recording writer) on solver-chosen trio genotypes and read sets: conflict / missing-genotype variants never reach the solver, child-heterozygous variants with a homozygous parent reach solver and writer with or without reads",
-        text="Bounded: 2-3 column trios with up to 2-3 reads, all alleles/weights/recombination costs symbolic; ped_parts: trio, quartet (both orders), child listed before its parents (thorough: two trios, three generations, three children); ped_genetic: trio, 1-3 (4) variants, all genotype rows for <= 2 variants, 8 representative rows beyond, 27 read patterns.",
+        text="Bounded: 2-3 column trios with up to 2-3 reads, all alleles/weights/recombination costs symbolic; ped_parts: trio, quartet (both orders), child listed before its parents (thorough: two trios, three generations, three children); ped_genetic: trio, 1-3 (4) variants, all genotype rows for <= 2 variants, 8 representative rows beyond, 27 read patterns; a second unrelated trio in the same run (1-2 variants, representative rows for both families).",
         note="As C01. The labelling convention of the transmission bits is not spelled out by the statement; the weaker reading (one fixed convention for all inputs) is asserted. Conflict/missing-genotype filtering (Python) is claimed by sub-check ped_filter when present.",
         design_ref="DESIGN.md §4 C05",
     ),
     "C20": dict(
         engine="PySym",
         technique="bounded symbolic execution (PySym/z3) of whatshap.cli.phase.run_whatshap with the environment stubbed (VCF reader/writer, read input, exact solver as contract stub, in-memory files); every path replayed on the real module with real files",
-        text="All three list files are checked against what each (chromosome, family) step produced, for 1-2 chromosomes x {single, trio, trio + unrelated sample} x distrust on/off with solver-chosen read patterns (including a phase set nested inside the family's block, 5 variants), transmission vectors and genotype changes; the phase set of every listed read is compared with the component the VCF writer is handed for the read's first variant (first variant on the first base of the contig included).",
+        text="All three list files are checked against what each (chromosome, family) step produced, for 1-2 chromosomes x {single, trio, trio + unrelated sample} x distrust on/off with solver-chosen read patterns (including a phase set nested inside the family's block, 5 variants), transmission vectors and genotype changes; the phase set of every listed read is compared with the component the VCF writer is handed for the read's first variant (first variant on the first base of the contig included). Sub-check run: the changed-genotype list against the REAL writer: listed changes == GT differences between input and output document (incl. changes to homozygous), none without --distrust-genotypes.",
         note="Trusted: the stubs listed in the evidence (they stand for C01/C04); PySym proxies. Outside: real BAM/VCF I/O, more than 2 chromosomes / 2 families (the defect class is per-step file handling).",
         design_ref="DESIGN.md §4 C20",
     ),
@@ -58,7 +58,7 @@ CHECKS.update({
     "C07": dict(
         engine="PySym + DeCy",
         technique="bounded symbolic execution (PySym/z3) of the DeCy translation of readselect.pyx (with priorityqueue.pyx, coverage.py, graph.py) with symbolic cap, qualities, source ids and unordered_set iteration order; plus a z3 lemma over unbounded integers for the per-member cap expression extracted from phase.py's AST; every path replayed on the rebuilt compiled readselect/core",
-        text="All read/variant incidence structures with <= 3 (thorough 4) reads over <= 4 variants: subset, span coverage <= k, maximality, independence of the C++ unordered_set order; arithmetic lemma: family_size * max(1, k // family_size) <= k for all 1 <= family_size <= k, and the 23 validation bound.",
+        text="Sub-check covmon: CovMonitor alone against its definition, index ranges over small values and the neighbourhood of every integer literal harvested from coverage.py (block sizes of a bucketed implementation enter the bound by themselves). All read/variant incidence structures with <= 3 (thorough 4) reads over <= 4 variants: subset, span coverage <= k, maximality, independence of the C++ unordered_set order; arithmetic lemma: family_size * max(1, k // family_size) <= k for all 1 <= family_size <= k, and the 23 validation bound.",
         note="Trusted: DeCy shims, core model (validated by the repo's readselect tests on the translation and by per-path replay on the compiled module). Outside: more than 4 reads / 4 variants.",
         design_ref="DESIGN.md §4 C07, §9",
     ),
@@ -79,7 +79,7 @@ CHECKS.update({
     "C12": dict(
         engine="PySym",
         technique="bounded symbolic execution (PySym/z3) of run_stats plus VcfReader's record-to-table code over a read-only pysam model with symbolic positions; every path replayed end to end (VCF text, real pysam, real run_stats with --tsv/--block-list/--gtf)",
-        text="<= 3 (4) records with every call class (hom, het, phased in <= 3 sets, missing, partial) and SNV/indel, <= 6 (7) het records with every interleaving/nesting of <= 3 phase sets, <= 2 chromosomes, PS and HP, --only-snvs, --chromosome.",
+        text="Sub-check samples: two-sample VCF, --sample absent / first / second; counts: three-chromosome shapes with every --chromosome selection pattern. <= 3 (4) records with every call class (hom, het, phased in <= 3 sets, missing, partial) and SNV/indel, <= 6 (7) het records with every interleaving/nesting of <= 3 phase sets, <= 2 chromosomes, PS and HP, --only-snvs, --chromosome.",
         note="Trusted: vcfread_model (re-validated by every replay), print/open capture. Outside: multi-sample files, --chr-lengths, NG50/median values (compared symbolic vs real only).",
         design_ref="DESIGN.md §4 C12, §9",
     ),
@@ -99,8 +99,8 @@ CHECKS.update({
     ),
     "C16": dict(
         engine="PySym",
-        technique="the hash seed as a symbolic variable: inside the repo modules set/frozenset iteration over hash-randomised elements yields a solver-chosen permutation (PySym/z3); run_compare, run_polyphase, run_whatshap (phase), run_genotype, run_haplotag, run_stats, run_unphase and run_split are executed under stubs twice (canonical order / solver's order; one permutation per distinct set content, as one process has one seed) and everything they write must be identical; a difference is confirmed by running the real CLI under several PYTHONHASHSEED values; sub-check repeat: the pre-state of the file system is symbolic - per output path of stats / phase (three lists) / learn the solver chooses whether a file of an earlier run is already there, and the outputs must equal those of a run on an empty file system (replay: real CLI into a fresh and into a pre-populated directory)",
-        text="compare: 2-3 single-sample VCFs, all naming patterns, --ignore-sample-name, all four output files + stdout; polyphase: 2-3 samples with solver-chosen het sets; phase: trio / quartet / trio+single / two trios x 1-2 chromosomes x --use-ped-samples x --distrust-genotypes, VCF and all three lists; genotype: same families, --no-priors, --prioroutput; haplotag: two samples sharing barcodes / read names, --sample subsets; stats (plain and tabix-indexed input, --chromosome), unphase, split: one pass each. Worker scheduling (--threads) and htslib compression threads are NOT claimed: no interleaving of OS processes/threads is visible to a symbolic executor of the source.",
+        technique="the hash seed as a symbolic variable: inside the repo modules set/frozenset iteration over hash-randomised elements yields a solver-chosen permutation (PySym/z3); run_compare, run_polyphase, run_whatshap (phase), run_genotype, run_haplotag, run_stats, run_unphase and run_split are executed under stubs twice (canonical order / solver's order; one permutation per distinct set content, as one process has one seed) and everything they write must be identical; a difference is confirmed by running the real CLI under several PYTHONHASHSEED values; sub-check repeat: the pre-state of the file system is symbolic - per output path of stats / phase (three lists) / learn the solver chooses whether a file of an earlier run is already there, and the outputs must equal those of a run on an empty file system (replay: real CLI into a fresh and into a pre-populated directory); sub-check polyphase_threads: the data flow of the worker branch of solve_polyphase_instance (jobs sorted by size, results put back by block id) under a synchronous pool stand-in equals the sequential branch for solver-chosen block layouts and block results",
+        text="compare: 2-3 single-sample VCFs, all naming patterns, --ignore-sample-name, all four output files + stdout; polyphase: 2-3 samples with solver-chosen het sets; phase: trio / quartet / trio+single / two trios x 1-2 chromosomes x --use-ped-samples x --distrust-genotypes, VCF and all three lists; genotype: same families, --no-priors, --prioroutput; haplotag: two samples sharing barcodes / read names, --sample subsets; stats (plain and tabix-indexed input, --chromosome), unphase, split: one pass each. polyphase --threads: only the data flow of the worker branch is claimed (polyphase_threads); worker scheduling and htslib compression threads are NOT claimed: no interleaving of OS processes/threads is visible to a symbolic executor of the source.",
         note="Trusted: nondet set shim (over-approximates hash orders; reports need a real reproduction under two PYTHONHASHSEED values), the stubs listed in the evidence (the solver contract stubs assume independence from the order of add_individual calls). Three hash-seed defects were found and repaired in /repo (compare multiway sample column, PedReader.samples(), haplotag sample loop). haplotagphase is not encoded for hash-seed independence (it builds no set); learn is covered for repetition only (its compiled Caller is a model that appends to the output path in the mode src/caller.cpp uses).",
         design_ref="DESIGN.md §4 C16, §9",
     ),
@@ -124,21 +124,21 @@ CHECKS.update({
     "C04": dict(
         engine="PySym",
         technique="bounded symbolic execution (PySym/z3) of PhasedVcfWriter (write, _remove_existing_phasing, _set_PS/_set_HP, header repair, VcfAugmenter streaming) against an executable pysam model with solver-chosen phasing results; record-by-record diff oracle; every path replayed with real pysam on materialised VCF files and the compiled core",
-        text="<= 3 records, 2 samples, 2 chromosomes, both tags, only_snvs, mav, pre-existing PS/HP phasing, duplicate positions, multi-ALT and no-ALT records, missing contig lines.",
+        text="<= 3 records, 2 samples, 2 chromosomes, both tags, only_snvs, mav, pre-existing PS/HP phasing, duplicate positions, multi-ALT and no-ALT records, missing contig lines. Sub-check run (checks/phase_run.py): whatshap.cli.phase.run_whatshap as a whole over one VCF - the real VcfReader reads it, the real PhasedVcfWriter streams it out (both on the pysam model; replay on real files), read input and exact solver are solver-chosen contract stubs; 2 samples x 2 chromosomes x 3 records of kinds snv/indel/multi-ALT, input unphased / PS- / HP-phased, --tag, --only-snvs, --sample, --distrust-genotypes, reads per (chromosome, sample) none/all. Oracle of run for C04: all records in order with their fixed fields, unselected samples/chromosomes untouched, other FORMAT values unchanged, alleles preserved unless distrusted, only heterozygous calls of usable variants phased.",
         note="Trusted: pysam model (every encoded fact probed against pysam 0.24.1 and validated per path by the replay). One known finding (HP = None written as NUL bytes). Outside: htslib BCF/bgzip serialisation, HS sets.",
         design_ref="DESIGN.md §4 C04, §9",
     ),
     "C09": dict(
         engine="PySym",
         technique="bounded symbolic execution (PySym/z3) of both encoders (_set_PS/_set_HP) and both decoders (_extract_GT_PS_phase/_extract_HP_phase, VcfReader, VariantTable.phases_of) through the pysam model incl. htslib's write/read normalisation; re-phasing hygiene for all four old x new tag pairs; phased_blocks_as_reads on symbolic tables; replay on real pysam files",
-        text="Bounded as C04; positions up to 2^31-2, HP ids from a small concrete domain (they pass through str/int). The clause 'a phased VCF as only input reproduces every phase set' rests on the DP (C01/C02 lemma) and is covered only up to the pseudo-read construction.",
+        text="Sub-check run: as C04 run, oracle: after re-phasing an already phased input every phase statement (phased GT, PS, HP) of a target sample on a processed chromosome sits at a variant the new run handed to the solver for that sample (also for samples without reads). Bounded as C04; positions up to 2^31-2, HP ids from a small concrete domain (they pass through str/int). The clause 'a phased VCF as only input reproduces every phase set' rests on the DP (C01/C02 lemma) and is covered only up to the pseudo-read construction.",
         note="Three genuine defects around the HP tag were found and repaired in /repo (see DESIGN 9.5); no open finding.",
         design_ref="DESIGN.md §4 C09, §9",
     ),
     "C10": dict(
         engine="PySym",
         technique="bounded symbolic execution (PySym/z3) of haplotag.py: prepare_haplotag_information, attempt_add_phase_information, ignore_read, linked-read pooling and run_haplotag's main loop under file stand-ins, with symbolic allele qualities; independent score oracle, tie rejection, haplotype-swap symmetry, conservation/order of records; replay on the real module with real pysam.AlignedSegment and the compiled core",
-        text="<= 3 (4) variants in <= 2 phase sets, ploidy 2-3, <= 2 linked reads, <= 4 records + unplaced tail, 4 region configurations, --tag-supplementary; the AlignmentFile stand-in answers fetch() and the BAM index queries (get_index_statistics, mapped/unmapped counts) from the same records, incl. a second contig that holds only a placed unmapped record.",
+        text="<= 3 (4) variants in <= 2 phase sets, ploidy 2-3, <= 2 linked reads, <= 4 records + unplaced tail, 4 region configurations, --tag-supplementary; the AlignmentFile stand-in answers fetch() and the BAM index queries (get_index_statistics, mapped/unmapped counts) from the same records, incl. a second contig that holds only a placed unmapped record; adjacent --regions whose boundary is the first base of a record.",
         note="Trusted: haplotag_model stand-ins. Two genuine defects (duplicate output for alignments overlapping two --regions, stale tags on the unmapped tail) were found and repaired in /repo. Outside: BAM/CRAM file I/O, --output-threads.",
         design_ref="DESIGN.md §4 C10, §9",
     ),
